@@ -1,5 +1,5 @@
 """C35 -- Reloading a program is idempotent."""
-import json, os, struct
+import json, os, re, struct
 from vlib import core, terms
 
 META = {
@@ -60,6 +60,8 @@ def ptext(t, ops):
             items, tail = terms.list_view(t)
             body = ",".join(ptext(x, ops) for x in items)
             return "[%s]" % body if tail == terms.NIL else "[%s|%s]" % (body, ptext(tail, ops))
+        if f == "\\==" and len(args) == 2:
+            return "%s \\== %s" % (ptext(args[0], ops), ptext(args[1], ops))
         if f in ops and len(args) == 2 and ops[f] in OPTYPES_INFIX:
             return "(%s %s %s)" % (ptext(args[0], ops), f, ptext(args[1], ops))
         if f in ops and len(args) == 1 and ops[f] in OPTYPES_PREFIX:
@@ -364,6 +366,7 @@ def make_job(sc, api, naming, observe=True, steps=None):
 
 def parse_obs(sc, res):
     """-> Coq text of one observation, or None when the query did not give exactly one binding answer"""
+    if not sc["keys"] and not sc["opnames"] and res == ["true"]: return "([], [])"
     if not (isinstance(res, list) and res and isinstance(res[0], dict) and "b" in res[0]): return None
     b = res[0]["b"]
     qs = []
@@ -392,7 +395,7 @@ def coq_case(sc, naming, observed):
     for st in sc["steps"]:
         if st[0] == "load": steps.append("SLoad %d t%s" % (tids[st[1]], st[1]))
         else: steps.append("SAssert (%s, Atom n_true)" % cterm(st[1]))
-    return ("let tS := %s in let tO := %s in check_trace %d [%s] [%s] [%s] [%s]" % (
+    return ("let tS : text := %s in let tO : text := %s in check_trace %d [%s] [%s] [%s] [%s]" % (
         coq_items(sc["S"]), coq_items(sc["O"]), FUEL, "; ".join(steps), "; ".join(ckey(k) for k in sc["keys"]),
         "; ".join(cname(o) for o in sc["opnames"]), "; ".join(observed)))
 
@@ -454,6 +457,50 @@ def minimise(prop, items, api, counter, rounds=40):
     return cur
 
 
+def well_formed_drop(items, i):
+    """items without item i, or None when that would leave clauses of a predicate without its declarations"""
+    it = items[i]
+    rest = items[:i] + items[i + 1:]
+    if it[0] == "decl" and any(x[0] == "clause" and ((x[1][1], len(x[1][2])) if x[1][0] == "cmp" else (x[1][1], 0)) == it[2] for x in rest):
+        return None
+    return rest
+
+
+def minimise_panic(prop, sc, api, naming):
+    cur = dict(sc)
+    def panicking(cands):
+        jobs = []
+        for cid, c in cands:
+            for w in ("S", "O"): open(c["paths"][w], "w").write(text_of(c[w]))
+            j, _ = make_job(c, api, naming, observe=False)
+            j["id"] = cid; jobs.append(j)
+        # file contents differ per candidate: run the candidates one process at a time when files are read
+        out = {}
+        if api == "file":
+            for (cid, c), j in zip(cands, jobs):
+                for w in ("S", "O"): open(c["paths"][w], "w").write(text_of(c[w]))
+                out.update(core.vrun_query(prop, [j], nproc=1, tag="minp"))
+        else:
+            out = core.vrun_query(prop, jobs, tag="minp")
+        return {cid: ("crash" in out.get(cid, {"crash": 1}) or "panic" in json.dumps(out[cid].get("results"))) for cid, _ in cands}
+    for rnd in range(60):
+        cands = []
+        for w in ("S", "O"):
+            for i in range(len(cur[w])):
+                d = well_formed_drop(cur[w], i)
+                if d is not None:
+                    c = dict(cur); c[w] = d; cands.append(("%s%d" % (w, i), c))
+        for i in range(len(cur["steps"])):
+            c = dict(cur); c["steps"] = cur["steps"][:i] + cur["steps"][i + 1:]; cands.append(("T%d" % i, c))
+        if not cands: break
+        r = panicking(cands)
+        nxt = next((c for cid, c in cands if r[cid]), None)
+        if nxt is None: break
+        cur = nxt
+    for w in ("S", "O"): open(sc["paths"][w], "w").write(text_of(sc[w]))
+    return cur
+
+
 # ---------------------------------------------------------------- run
 def run(ctx):
     rng = ctx.rng
@@ -493,6 +540,7 @@ def run(ctx):
             "footprint_differences": {}}
     nontriv = set()
     grow_cases = []      # (scenario, api, naming, counter)
+    panics = []
     for sc in scs:
         for f in sc["feats"]: dist["features"][f] = dist["features"].get(f, 0) + 1
         for k in kinds_of(sc["S"]): dist["item_kinds"][k] = dist["item_kinds"].get(k, 0) + 1
@@ -510,8 +558,7 @@ def run(ctx):
             marks = jmarks[jid]
             results, fps = r["results"], r["footprints"]
             if any(isinstance(x, list) and x and isinstance(x[0], dict) and "panic" in x[0] for x in results):
-                failures.append({"key": "reload:panic:" + api, "what": "a load or query step panicked", "input": inp,
-                                 "impl": json.dumps(results)[:400], "spec": "no panic", "property_fails": True})
+                panics.append((sc, api, naming, inp, [json.dumps(x)[:160] for x in results if isinstance(x, list) and x and isinstance(x[0], dict) and "panic" in x[0]]))
                 continue
             dist["apis"][api] = dist["apis"].get(api, 0) + 1
             # observations: after every mutation step
@@ -564,14 +611,52 @@ def run(ctx):
     bad, errs = core.coq_eval_bools(ctx.prop, IMPORTS, bools, chunk=40, timeout=900)
     for _, t in errs:
         tie_breaks.append({"kind": "coq-eval", "what": "model evaluation shard failed", "detail": t})
-    for j in bad[:6]:
-        sc, api, naming, inp, obs = binfo[j]
-        tids = {"S": 1, "O": 2} if naming == "path" else {"S": 0, "O": 0}
-        steps = "; ".join("SLoad %d t%s" % (tids[s[1]], s[1]) if s[0] == "load" else "SAssert (%s, Atom n_true)" % cterm(s[1]) for s in sc["steps"])
-        spec = core.coq_eval_show(ctx.prop, IMPORTS, "let tS := %s in let tO := %s in trace %d machine0 [%s] [%s] [%s]" % (
-            coq_items(sc["S"]), coq_items(sc["O"]), FUEL, steps, "; ".join(ckey(k) for k in sc["keys"]), "; ".join(cname(o) for o in sc["opnames"])))
-        failures.append({"key": "reload:answers-differ-from-model:" + api, "what": "the answers after a (re)load differ from the loader model's",
-                         "input": inp + "; queries=" + obs_query(sc), "impl": " | ".join(obs)[:1500], "spec": spec[:1500], "property_fails": True})
+    # where does each disagreeing trace first differ from the model?  (one coqc run for all of them)
+    bad = sorted(bad, key=lambda j: (len(binfo[j][0]["S"]) + len(binfo[j][0]["O"]), len(binfo[j][0]["steps"])))[:40]
+    dist["traces_differing_from_model"] = len(bad)
+    if bad:
+        shown = core.coq_eval_show(ctx.prop, IMPORTS, "[%s]" % "; ".join(bools[j].replace("check_trace", "first_mismatch", 1) for j in bad), timeout=900)
+        locs = re.findall(r"(None|Some \((\d+)(?:%nat)?, (?:Some (\d+)(?:%nat)?|None)\))", shown)
+        if len(locs) != len(bad):
+            tie_breaks.append({"kind": "coq-eval", "what": "could not locate the model/implementation differences", "detail": shown[-2000:]})
+            locs = [("?", "", "")] * len(bad)
+        by_key = {}
+        for j, (_, st, ki) in zip(bad, locs):
+            sc, api, naming, inp, obs = binfo[j]
+            if ki != "":
+                k = sc["keys"][int(ki)]
+                fl = sorted({it[1] for it in sc["S"] + sc["O"] if it[0] == "decl" and it[2] == k})
+                isrule = any(it[0] == "clause" and it[2] and ((it[1][1], len(it[1][2])) == k) for it in sc["S"] + sc["O"])
+                feat = "+".join(fl) or ("rule" if isrule else "static")
+                where = "predicate %s/%d" % k
+            else:
+                feat, where = "operators", "operator entries"
+            upto = sc["steps"][:int(st) + 1] if st != "" else sc["steps"]
+            texts = sorted({s[1] for s in upto if s[0] == "load"})
+            feat += (":two-texts" if len(texts) == 2 else ":one-text") + (":asserts" if any(s[0] == "assert" for s in upto) else "") + \
+                    (":file-identity" if naming == "path" else ":anonymous-identity")
+            by_key.setdefault(feat, []).append((j, st, where))
+        for feat, lst in sorted(by_key.items()):
+            j, st, where = lst[0]
+            sc, api, naming, inp, obs = binfo[j]
+            spec = core.coq_eval_show(ctx.prop, IMPORTS, bools[j].replace("check_trace", "trace", 1).rsplit(" [", 1)[0].replace("trace %d " % FUEL, "trace %d machine0 " % FUEL, 1))
+            failures.append({"key": "reload:answers-differ-from-model:" + feat,
+                             "what": "after step %s of the history the answers of %s differ from the loader model's (%d such traces in this run)" % (st, where, len(lst)),
+                             "input": inp + "; queries=" + obs_query(sc), "impl": " | ".join(obs)[:1500], "spec": spec[:1500], "property_fails": True})
+
+    # panics: drop items (keeping every text well formed) while the history still panics, name what is left
+    panics.sort(key=lambda p: (len(p[0]["S"]) + len(p[0]["O"]), p[0]["idx"]))
+    pseen = set()
+    for sc, api, naming, inp, msgs in panics[:3]:
+        small = minimise_panic(ctx.prop, sc, api, naming)
+        feat = "+".join(sorted((kinds_of(small["S"]) | kinds_of(small["O"])) - {"fact"})) or "fact"
+        key = "reload:panic:%s" % feat
+        if key in pseen: continue
+        pseen.add(key)
+        failures.append({"key": key, "what": "a (re)load panics (%d histories in this run); smallest history found by dropping items" % len(panics),
+                         "input": "%s; %s; steps=%s; S=%r; O=%r; found from: %s" % (APIS[api], "file-path identity" if naming == "path" else "anonymous identity",
+                                  " ".join(s[0] + (s[1] if s[0] == "load" else "") for s in small["steps"]), text_of(small["S"]), text_of(small["O"]), inp[:600]),
+                         "impl": "; ".join(msgs)[:400], "spec": "the load succeeds and the answers are the model's", "property_fails": True})
 
     # footprint growth: confirm with loads only, minimise by dropping items, name the program feature
     explained = []   # (counter, feature kinds, apis)
